@@ -12,12 +12,16 @@
   * map iteration order does not appear in any definition except `Arrange`'s `σ` (the association-list order), which
     `Stable` quantifies away.
 
-  Missing: `Stable` for every reachable state (it follows from the map invariant `Inv`: position map = positions ⇒
-  `Arrange` is the identity).  Decided meanwhile by the `calls` suite (every ordered pair / triple of the 8 output
+  * `arrange_identity`, `pure_of_inv` — under the map invariant (`Table.ColInv`: unique column names, position map = a
+    permutation of `name ↦ index`) `Arrange` is the identity **for every iteration order of the map** (the association-
+    list order is arbitrary; sorting the entries by position always yields `name ↦ index` in index order), so every state
+    whose tables satisfy the invariant is stable and all of the above applies to it.
+  Missing: that every state reachable by the readers and `Diff` satisfies the invariant (the Go harness checks it on
+  every reached state: `invCheck`, and the white-box state correspondence includes the maps).  Decided by the `calls` suite (every ordered pair / triple of the 8 output
   methods + random longer sequences, also with output calls before `Diff`) and by byte-identical re-runs in fresh
   processes (fresh map-iteration seeds).
 -/
-import SqlizeModel.Proofs.Stable
+import SqlizeModel.Proofs.Inv
 import SqlizeModel.Impl.Hash
 
 namespace Sqlize.C08
@@ -73,6 +77,13 @@ theorem calls_pure (g : Globals) (m : Migration) (h : m.Stable) (cs : List OutCa
     rw [show call g m c = ((call g m c).1, (call g m c).2) from rfl, hs]
     simp only
     rw [ih]
+
+theorem arrange_identity (t : Table) (h : t.ColInv) : t.arrange = .ok t := arrange_id t h
+
+/-- output calls are pure on every state that satisfies the map invariant -/
+theorem pure_of_inv (g : Globals) (m : Migration) (h : m.ColInv) (cs : List OutCall) :
+    runCalls g m cs = (m, cs.map (fun c => (call g m c).2)) :=
+  calls_pure g m (stable_of_inv m h) cs
 
 -- non-vacuity: the empty model is stable, and so is any model whose tables have no columns to move
 example : ({} : Migration).Stable := by intro t ht; simp at ht
